@@ -169,8 +169,8 @@ func allProps() []Prop {
 		{Dir: pb, Harness: "prober", Entry: "VerifH_t4t7", Logic: "QF_UFBV", NoReplay: true},
 		{Dir: pb, Harness: "prober", Entry: "VerifH_t4t7c"},
 		{Dir: pb, Harness: "prober", Entry: "VerifH_uri", Unroll: 8},
-		{Dir: pb, Harness: "prober", Entry: "VerifH_payload", Flags: []string{"size=0"}},
-		{Dir: pb, Harness: "prober", Entry: "VerifH_payload", Flags: []string{"size=3"}},
+		{Dir: pb, Harness: "prober", Entry: "VerifH_payload", Flags: []string{"size=0", "size2=3"}},
+		{Dir: pb, Harness: "prober", Entry: "VerifH_payload", Flags: []string{"size=3", "size2=0"}},
 		{Dir: "spanner_prober", Harness: "spanner_prober", Entry: "VerifH_flags", Logic: "QF_UFFPBV", NoReplay: true},
 		{Dir: "spanner_prober", Harness: "spanner_prober", Entry: "P7_flags", NoReplay: true, ReplayEntry: "VerifH_flags"},
 	}
@@ -178,7 +178,7 @@ func allProps() []Prop {
 		"backoff":     "0 < base <= max < 2^53 ns (exact int<->float64 region), max <= 25*base (at most 8 multiplications by 1.5; covers the deployed 200ms/5s), retries in [0, 2^62); the deployed constants for every retry count; unwinding assertion at 10/12",
 		"headers":     "header and trailer metadata each nil / without the key / with 0..2 entries; entries arbitrary strings (HasPrefix, TrimPrefix, ParseInt as uninterpreted functions of the string)",
 		"flags":       "all flag values symbolic (strings as opaque ids, qps any float64 incl. NaN/Inf, ints 64-bit); the regular expressions are the literals found in validateFlags' SSA, translated to SMT-LIB RegLan and decided by cvc5 --strings-exp; the database-name format is the Sprintf constant of (*ProberOptions).databaseURI",
-		"payload":     "sizes 0 and 3; rand.Read yields arbitrary bytes; sha256 uninterpreted (ghost: the digest returned comes from a hash object that was written exactly the payload, once)",
+		"payload":     "two payloads in a row, sizes (0,3) and (3,0); rand.Read yields arbitrary bytes; sha256 uninterpreted (ghost: the digest returned comes from a hash object that was written exactly the payload, once)",
 		"loop unroll": "6 unless stated",
 	}
 	raceJobs := cat(
